@@ -488,9 +488,10 @@ def amalgamate_csr_to_x(
             n_valid += src['data'].shape[0]
             if data_dtype is None:
                 data_dtype = src['data'].dtype
-            this_max = src['indices'][()].max()
-            if this_max > indices_max:
-                indices_max = this_max
+            if src['indices'].shape[0] > 0:
+                this_max = src['indices'][()].max()
+                if this_max > indices_max:
+                    indices_max = this_max
 
     cutoff = np.iinfo(np.int32).max
     if indices_max >= cutoff or n_valid >= cutoff:
@@ -507,17 +508,22 @@ def amalgamate_csr_to_x(
         grp.attrs.create(
             name='shape', data=np.array(final_shape))
 
+        if n_valid > 0:
+            sparse_chunks = min(n_valid, 20000)
+        else:
+            sparse_chunks = None
+
         dst_data = grp.create_dataset(
             'data',
             shape=(n_valid,),
-            chunks=min(n_valid, 20000),
+            chunks=sparse_chunks,
             dtype=data_dtype,
             compression=compression,
             compression_opts=compression_opts)
         dst_indices = grp.create_dataset(
             'indices',
             shape=(n_valid,),
-            chunks=min(n_valid, 20000),
+            chunks=sparse_chunks,
             dtype=index_dtype,
             compression=compression,
             compression_opts=compression_opts)
